@@ -345,5 +345,89 @@ func Run(c *common.Ctx) error {
 		_ = el
 	}
 	c.Sample(map[string]any{"request": cases[0], "cases": len(cases)})
+	// the tracked database appears after the proxy has already served requests: a proxy started on a replica before
+	// the database exists behaves, once it exists, like one started afterwards
+	{
+		const late = "latedb"
+		px, app, err := mkProxy(rn.Store, late)
+		if err != nil {
+			return err
+		}
+		defer px.Close()
+		defer app.srv.Close()
+		ppx, papp, err := mkProxy(p.Store, late)
+		if err != nil {
+			return err
+		}
+		defer ppx.Close()
+		defer papp.srv.Close()
+		get := func(base string, cookie uint64) (*http.Response, error) {
+			req, _ := http.NewRequest("GET", base+"/app", nil)
+			if cookie != 0 {
+				req.AddCookie(&http.Cookie{Name: "__txid", Value: ltx.TXID(cookie).String()})
+			}
+			resp, err := client.Do(req)
+			if err == nil {
+				_, _ = io.Copy(io.Discard, resp.Body)
+				resp.Body.Close()
+			}
+			return resp, err
+		}
+		// requests while the database does not exist anywhere
+		_, _ = get(px.URL(), 0)
+		_, _ = get(px.URL(), 5)
+		if req, err := http.NewRequest("POST", ppx.URL()+"/app", strings.NewReader("")); err == nil {
+			if resp, err := client.Do(req); err == nil {
+				_, _ = io.Copy(io.Discard, resp.Body)
+				resp.Body.Close()
+			}
+		}
+		app.take()
+		papp.take()
+		hl := hist.NewOn(c, c.Rng.Fork(), hist.Config{PageSize: 512}, p.Store, p.Exits, late, nil, 0, false)
+		for i := 0; i < 2; i++ {
+			if !commitOne(hl) {
+				return fmt.Errorf("late database: commit failed")
+			}
+		}
+		lp := p.Store.DB(late).Pos()
+		if !cluster.WaitPos(rn, late, uint64(lp.TXID), uint64(lp.PostApplyChecksum), 10*time.Second) {
+			return fmt.Errorf("late database did not reach the replica")
+		}
+		c.Evaluations++
+		c.Distinct("late-database:read-wait")
+		rep := map[string]any{"kind": "proxy-late-database"}
+		resp, err := get(px.URL(), uint64(lp.TXID)+1)
+		arr := app.take()
+		if err != nil {
+			c.Violate("C19:late-database:no-response", fmt.Sprintf("proxy did not answer: %v", err), rep)
+		} else if len(arr) > 0 && arr[0].txid < uint64(lp.TXID)+1 {
+			c.Violate("C19:late-database:read-too-early", fmt.Sprintf("the tracked database was created after the proxy had served its first requests; a read with cookie %d reached the application with the database at %d (status %d)", uint64(lp.TXID)+1, arr[0].txid, resp.StatusCode), rep)
+		} else if len(arr) == 0 && resp.StatusCode != http.StatusGatewayTimeout {
+			c.Violate("C19:late-database:read-dropped", fmt.Sprintf("read with a cookie ahead of the database was neither forwarded nor timed out (status %d)", resp.StatusCode), rep)
+		}
+		// and on the primary: a write is answered with the cookie
+		c.Evaluations++
+		c.Distinct("late-database:write-cookie")
+		papp.onWrite = func() { commitOne(hl) }
+		if req, err := http.NewRequest("POST", ppx.URL()+"/app", strings.NewReader("")); err == nil {
+			if resp, err := client.Do(req); err == nil {
+				_, _ = io.Copy(io.Discard, resp.Body)
+				resp.Body.Close()
+				after := uint64(p.Store.DB(late).Pos().TXID)
+				var set uint64
+				for _, ck := range resp.Cookies() {
+					if ck.Name == "__txid" {
+						if t, err := ltx.ParseTXID(ck.Value); err == nil {
+							set = uint64(t)
+						}
+					}
+				}
+				if set < after {
+					c.Violate("C19:late-database:cookie", fmt.Sprintf("the tracked database was created after the proxy had served its first requests; a write that left it at %d was answered with cookie %d", after, set), rep)
+				}
+			}
+		}
+	}
 	return nil
 }
